@@ -30,7 +30,7 @@ RULE = ("layer 1/2: every rooted tree of order <= 8 (200 trees, exhaustive) x {a
         "as constant state components; polynomial Hamiltonians) x integrator x grid; non-trivial = non-linear or non-autonomous instance whose "
         "coarsest-resolution error is above the rounding floor; distinct by (tree, entry point) resp. full instance")
 ASSUMPTIONS = [
-    "fixed-step order: the better of the two finest pairwise log2 error ratios over step halvings (or, when they are still rising and the finest is within 1 of p, their linear extrapolation to h->0) >= p - 0.5 (p - 0.75 when only two ratios are usable), using only resolutions with >= 8 steps and errors in [1e-11, 1e-2]*scale; fewer than 2 ratios => counted trivial, never failed",
+    "fixed-step order: the better of the two finest pairwise log2 error ratios over step halvings (or, when they are still rising and the finest is within 1 of p, their linear extrapolation to h->0) >= p - 0.5 (p - 0.75 when only two ratios are usable), using only resolutions with >= 8 steps, h*Lam <= 1 (Lam = Lipschitz/frequency estimate) and errors in [1e-11, 1e-2]*scale; fewer than 2 ratios => counted trivial, never failed",
     "adaptive accuracy (at tol and tol/100; when the error at tol is >= the tolerance itself it must also drop >= 1.5x at tol/100): error at every requested time <= 60*max(1, r_scipy)*(rtol*|y|+atol) (calibration: largest observed value of err/(tol*max(1,r_scipy)) over 3100 thorough cases was 16) (the RMS error norm is diluted ~3.6x by the 35 constant parameter components of the template) where r_scipy is SciPy's own error ratio for the same method family on the same instance, instances with ||J||*T <= 6",
     "reference solutions: SciPy DOP853 at rtol=atol=1e-13 on an independently written NumPy field",
 ]
@@ -332,7 +332,11 @@ def eval_ode(case, ctx):
             if e < floor_o:
                 break
             N *= 2
-        good = [(N, e) for N, e in errs if e >= 3 * floor_o and N >= 8]
+        # asymptotic regime only: h * Lam <= 1 with Lam a Lipschitz / frequency estimate of the instance (the span
+        # extension above can make even 64 steps coarse)
+        A_ = par[0:9].reshape(3, 3)
+        Lam = max(float(np.linalg.norm(A_, 2)) + 2 * float(np.linalg.norm(par[9:27])) * scale + float(np.max(np.abs(par[30:33]))), float(par[33]))
+        good = [(N, e) for N, e in errs if e >= 3 * floor_o and N >= 8 and (T / N) * Lam <= 1.0]
         ratios = [math.log2(good[i][1] / good[i + 1][1]) for i in range(len(good) - 1) if good[i + 1][0] == 2 * good[i][0]]
         nt = ("ode", repr(case)) if len(ratios) >= 2 else None
         ctx.case(nontrivial=nt, cls=["ode:fixed%d" % p, "ode:" + case["kind"], "ode:ratios=%d" % min(len(ratios), 3)],
